@@ -42,10 +42,10 @@ int ref_countr(U x, unsigned bit)
 }
 // rotate left by s (any integer): bit i of the result is bit (i - s) mod W of x
 template <typename U>
-U ref_rotl(U x, int s)
+U ref_rotl(U x, V s) // the count as a mathematical integer: -s never overflows here
 {
     constexpr int W = width_v<U>;
-    int const k     = ((s % W) + W) % W;
+    int const k     = int(((s % W) + W) % W);
     u128 const wide = u128(x);
     u128 const both = (wide << k) | (wide >> (W - k)); // k in [0,W): 128-bit shifts by at most 64
     return U(both);
@@ -77,6 +77,7 @@ std::string cls_rot(V, V sv)
     int const s     = int(sv);
     if (s == 0) { return "count_zero"; }
     if (s % W == 0) { return s < 0 ? "count_negative_multiple_of_width" : "count_multiple_of_width"; }
+    if (sv < -130 || sv > 130) { return s < 0 ? "count_negative_huge" : "count_huge"; }
     if (s < 0) { return s > -W ? "count_negative" : "count_negative_beyond_width"; }
     if (s > W) { return "count_beyond_width"; }
     return "general";
@@ -95,7 +96,7 @@ std::string cls_pos(V, V pos)
 template <typename U>
 void unary_bits(Ctx& c)
 {
-    Set const& A = full<U>();
+    Set const& A = full2<U>();
     TI const t   = ti<U>();
     auto cls     = &cls_unary<U>;
     auto nt      = +[](V x) { return x != 0 && x != max_v<U>; };
@@ -152,7 +153,7 @@ void unary_bits(Ctx& c)
 template <typename T>
 void byteswaps(Ctx& c)
 {
-    Set const& A = full<T>();
+    Set const& A = full2<T>();
     auto ref     = +[](Ctx&, V x) { return V(ref_byteswap(T(x))); };
     auto nt      = +[](V x) { return V(ref_byteswap(T(x))) != x; };
     sweep1(c, {"byteswap(x)", ti<T>(), "x", always1, [](V x) { return V(etl::byteswap(T(x))); }, ref, &cls_unary<T>, nt}, A);
@@ -174,17 +175,34 @@ void rotations(Ctx& c)
             v.push_back(s);
             v.push_back(-s);
         }
+        // round 2: huge counts - +-2^k and its neighbours for k = 8..30, the limits of int and their
+        // neighbours (the reduction modulo the width must not overflow or go through abs/negation)
+        std::set<V> seen(v.begin(), v.end());
+        auto add = [&](V s) {
+            if (s >= min_v<int> && s <= max_v<int> && seen.insert(s).second) { v.push_back(s); }
+        };
+        for (int k = 8; k <= 31; ++k) {
+            V const b = V(1) << k;
+            for (V d : {-3, -1, 0, 1, 3}) {
+                add(b + d);
+                add(-(b + d));
+            }
+        }
+        for (V d = 0; d <= 66; ++d) {
+            add(max_v<int> - d);
+            add(min_v<int> + d);
+        }
         return v;
     }();
-    Space const sp{{&full<U>(), &counts}};
+    Space const sp{{&full2<U>(), &counts}};
     auto nt = +[](V x, V s) { return int(s) % width_v<U> != 0 && x != 0 && x != max_v<U>; };
     sweep2(c,
         {"rotl(x,s)", ti<U>(), ti<int>(), "x", "s", always2, [](V x, V s) { return V(etl::rotl(U(x), int(s))); },
-            [](Ctx& c, V x, V s) { return agree<U>(c, "rotl", x, std::rotl(U(x), int(s)), ref_rotl(U(x), int(s))); }, &cls_rot<U>, nt},
+            [](Ctx& c, V x, V s) { return agree<U>(c, "rotl", x, std::rotl(U(x), int(s)), ref_rotl(U(x), s)); }, &cls_rot<U>, nt},
         sp);
     sweep2(c,
         {"rotr(x,s)", ti<U>(), ti<int>(), "x", "s", always2, [](V x, V s) { return V(etl::rotr(U(x), int(s))); },
-            [](Ctx& c, V x, V s) { return agree<U>(c, "rotr", x, std::rotr(U(x), int(s)), ref_rotl(U(x), -int(s))); }, &cls_rot<U>, nt},
+            [](Ctx& c, V x, V s) { return agree<U>(c, "rotr", x, std::rotr(U(x), int(s)), ref_rotl(U(x), -s)); }, &cls_rot<U>, nt},
         sp);
 }
 
@@ -229,7 +247,7 @@ void bit_manip(Ctx& c)
         for (int p = 0; p < width_v<U>; ++p) { v.push_back(p); }
         return v;
     }();
-    Space const sp{{&full<U>(), &positions}};
+    Space const sp{{&full2<U>(), &positions}};
     TI const t   = ti<U>();
     auto cls     = &cls_pos<U>;
     auto r_set   = +[](Ctx&, V w, V p) { return V(U(U(w) | U(U(1) << int(p)))); };
@@ -271,7 +289,7 @@ template <typename T>
 void byte_order(Ctx& c)
 {
     namespace net = etl::experimental::net;
-    Set const& A  = full<T>();
+    Set const& A  = full2<T>();
     auto ref      = +[](Ctx&, V v) -> V {
         if constexpr (sizeof(T) == 1) {
             return v;
@@ -295,6 +313,10 @@ void byte_order(Ctx& c)
     sweep1(c, {"net::ntoh(v)", ti<T>(), "v", always1, [](V v) { return V(net::ntoh(T(v))); }, refn, &cls_unary<T>, nt}, A);
     sweep1(c,
         {"net::ntoh(net::hton(v))", ti<T>(), "v", always1, [](V v) { return V(net::ntoh(net::hton(T(v)))); }, [](Ctx&, V v) { return v; },
+            &cls_unary<T>, nt},
+        A);
+    sweep1(c,
+        {"net::hton(net::ntoh(v))", ti<T>(), "v", always1, [](V v) { return V(net::hton(net::ntoh(T(v)))); }, [](Ctx&, V v) { return v; },
             &cls_unary<T>, nt},
         A);
 }
@@ -344,6 +366,27 @@ int main(int argc, char** argv)
         byte_order<i8>(c);
         byte_order<u16>(c);
         byte_order<u32>(c);
+        // etl::endian names the host order the conversions above assume
+        ++c.evals;
+        // (only the relations are specified, the enumerator values are not)
+        bool const etl_little = etl::endian::native == etl::endian::little;
+        bool const etl_big    = etl::endian::native == etl::endian::big;
+        if (etl::endian::little == etl::endian::big || etl_little != (std::endian::native == std::endian::little)
+            || etl_big != (std::endian::native == std::endian::big)) {
+            c.r.violation("C14", "endian", "general", "etl::endian::native against little/big",
+                cat("tetl: native==little ", etl_little, ", native==big ", etl_big, "; reference: ", std::endian::native == std::endian::little, ", ",
+                    std::endian::native == std::endian::big));
+        }
+    });
+    m.job("byteswap-char-types", {"quick", "thorough"}, [](mc::Reporter& r) {
+        // etl::byteswap accepts every integral type: the character types are distinct types of width
+        // 8 (char, char8_t), 16 (char16_t) and 32 bits (char32_t, wchar_t here)
+        Ctx c(r);
+        byteswaps<char>(c);
+        byteswaps<char8_t>(c);
+        byteswaps<char16_t>(c);
+        byteswaps<char32_t>(c);
+        byteswaps<wchar_t>(c);
     });
     return m.run();
 }
